@@ -23,6 +23,11 @@ def punct_delete(rng):
     cfg = treegen.Cfg(n_min=1, n_max=10, p_punct=rng.choice([0.2, 0.5, 1.0]), p_unary=0.3, labels=treegen.PLAIN_LABELS)
     t = treegen.gen_tree(rng, cfg)
     t.data['sid'] = rng.randint(1, 50)
+    if rng.random() < 0.15:
+        import history
+        sid0 = t.data['sid']
+        t, _ = history.pretransformed(rng, t, allowed=["add_topnode", "binarize", "root_attach", "punctuation_root", "punctuation_verylow", "split+raise"])
+        t.data['sid'] = sid0
     tag_uids(t)
     a = proto.enc_tree(t)
     params = {"quiet": True} if rng.random() < 0.5 else {}
@@ -49,6 +54,10 @@ def punct_delete(rng):
 def delete_one(rng):
     t = treegen.gen_tree(rng, treegen.Cfg(n_min=2, n_max=9, p_unary=0.3, labels=treegen.PLAIN_LABELS))
     t.data['sid'] = 1
+    if rng.random() < 0.15:
+        import history
+        t, _ = history.pretransformed(rng, t, allowed=["add_topnode", "binarize", "root_attach", "punctuation_root", "split+raise", "collapse+uncollapse"])
+        t.data['sid'] = 1
     tag_uids(t)
     a = proto.enc_tree(t)
     base = tx.fresh(t, 1)
